@@ -104,7 +104,13 @@ pub fn build_file(c: &XzCase, orig_check: u8) -> Option<XzFile> {
             return Some(build_hcheck(f, m.v as u8));
         }
         "fcheck" => f.fcheck = Some(m.v as u8),
-        "idxPad" => f.idx_pad_byte = Some(1),
+        "idxPad" => f.idx_pad_pat = m.v as u8,
+        "hres" => f.hflags1_or = (m.v as u8) << 4,
+        "fres" => f.fflags1_or = (m.v as u8) << 4,
+        "bothres" => {
+            f.hflags1_or = (m.v as u8) << 4;
+            f.fflags1_or = (m.v as u8) << 4;
+        }
         "idxCrc" => f.idx_crc_xor = 1,
         "fcrc" => f.fcrc_xor = 0x8000_0000,
         "fnull" => f.fflags0 = 0x80,
@@ -113,9 +119,9 @@ pub fn build_file(c: &XzCase, orig_check: u8) -> Option<XzFile> {
         "backward" => f.backward = Some(m.v as u32),
         "trailing" => f.trailing = vec![0u8; m.v as usize],
         "reserved" => f.blocks[bi].flags_or = 0x04,
-        "hpad" => f.blocks[bi].hpad_byte = Some(1),
+        "hpad" => f.blocks[bi].hpad_pat = m.v as u8,
         "bhcrc" => f.blocks[bi].hcrc_xor = 1,
-        "bpad" => f.blocks[bi].bpad_byte = Some(1),
+        "bpad" => f.blocks[bi].bpad_pat = m.v as u8,
         "check" => f.blocks[bi].check_xor = 1,
         "fid" => f.blocks[bi].filter_id = Some(m.v as u64),
         "nfilters" => f.blocks[bi].extra_filters = vec![(0x21, vec![22])],
@@ -219,7 +225,7 @@ impl XzCase {
 }
 
 fn prop_wants(prop: &str, c: &XzCase) -> bool {
-    let unsupported_feature = matches!(c.mutation.f.as_str(), "reserved" | "fid" | "nfilters" | "hnull" | "fnull") || !matches!(c.check, 0 | 1 | 4);
+    let unsupported_feature = matches!(c.mutation.f.as_str(), "reserved" | "fid" | "nfilters" | "hnull" | "fnull" | "hres" | "fres" | "bothres") || !matches!(c.check, 0 | 1 | 4);
     match prop {
         "C03" => c.mutation.f == "none" && matches!(c.check, 0 | 1 | 4),
         "C18" => unsupported_feature || (c.mutation.f == "trailing"),
